@@ -106,6 +106,8 @@ def _is_stringy(e, f: FuncInfo, repo, depth=0):
         return True
     if isinstance(e, ast.Call) and isinstance(e.func, ast.Name) and e.func.id == "str":
         return True
+    if isinstance(e, ast.Attribute) and e.attr in ("_name", "name", "__name__", "__qualname__"):
+        return True  # node / collection names are strings
     if isinstance(e, (ast.List, ast.Tuple, ast.Set)) and e.elts:
         return all(_is_stringy(x, f, repo, depth) for x in e.elts)
     if isinstance(e, ast.BinOp) and isinstance(e.op, (ast.Add, ast.Mod)):
@@ -151,13 +153,25 @@ class NondetEval(Evaluator):
     (iteration order depends on PYTHONHASHSEED); ``ord@<line>`` a sequence/string whose order was
     frozen from such a set; ``P:<param>`` placeholder: the value of parameter <param> (summaries)."""
 
+    ELEMENT_TAGS = frozenset({"SS"})
+
     def __init__(self, ctx, f: FuncInfo, depth=0, stack=()):
         super().__init__()
         self.ctx, self.f, self.depth, self.stack = ctx, f, depth, stack
 
     @staticmethod
     def _freeze(tags, line):
-        return frozenset((f"ord@{line}" if t == "SS" else t) for t in tags)
+        return frozenset((f"ord@{line}" if t == "SS" else t) for t in tags if t != "SS[*]")
+
+    def iter_tags(self, it, st):
+        # iterating a set of strings visits its elements in hash order: whatever the loop accumulates is ordered by it
+        return self._freeze(self.ev(it, st), getattr(it, "lineno", 0))
+
+    def mutator_tags(self, call, st):
+        tags = super().mutator_tags(call, st)
+        if call.func.attr == "add" and call.args and _is_stringy(call.args[0], self.f, self.ctx.repo):
+            tags = tags | {"SS"}
+        return _strip(tags, "SS[*]") if call.func.attr != "update" else tags
 
     def name(self, n, st):
         if n.id in st:
@@ -202,10 +216,13 @@ class NondetEval(Evaluator):
         return super().ev(e, st)
 
     def attribute(self, n, st):
-        return _strip(self.ev(n.value, st), "SS")
+        return _strip(self.ev(n.value, st), "SS", "SS[*]")
 
     def subscript(self, n, st):
-        return _strip(self.ev(n.value, st), "SS")
+        base = self.ev(n.value, st)
+        out = _strip(base, "SS", "SS[*]") | ({"SS"} if "SS[*]" in base else EMPTY)
+        # which element is selected depends on the index: an order-dependent index gives an order-dependent element
+        return out | frozenset(t for t in self.ev(n.slice, st) if t.startswith(("ord@", "src:", "P:")))
 
     def compare(self, n, st):
         return EMPTY
@@ -232,6 +249,8 @@ class NondetEval(Evaluator):
             return _strip(argtags, "SS")  # tokenize normalises a set order-free; an already frozen order is kept
         if isinstance(fn, ast.Attribute) and fn.attr in ("union", "intersection", "difference", "symmetric_difference", "copy") and "SS" in recv:
             return recv | _strip(argtags, "SS")
+        if isinstance(fn, ast.Attribute) and fn.attr in ("get", "pop", "setdefault") and "SS[*]" in recv:
+            return _strip(recv | argtags, "SS[*]") | {"SS"}  # an element of a mapping whose values are sets of strings
         if (isinstance(fn, ast.Name) and fn.id in ("list", "tuple", "str", "repr", "iter", "next", "enumerate", "zip", "map", "filter", "reversed", "dict")) or (isinstance(fn, ast.Attribute) and fn.attr == "join"):
             return self._freeze(argtags | recv, n.lineno)
         r = repo.resolve_expr(fn, self.f.module, self.f) if isinstance(fn, (ast.Name, ast.Attribute)) else None
@@ -249,7 +268,7 @@ class NondetEval(Evaluator):
                     for x in exprs:
                         out |= _strip(self.ev(x, st), "SS")
             return out
-        return _strip(argtags | recv, "SS")
+        return _strip(argtags | recv, "SS", "SS[*]")
 
 
 def _bind(callee: FuncInfo, call: ast.Call):
